@@ -152,7 +152,7 @@ Proof.
 Qed.
 
 (* the regenerated tables stay folded: nothing below depends on what they contain *)
-Local Opaque tcp_disconnect_hook tcp_suppress tcp_init_stack tcp_init_reraises misc_disconnect_after_connection receiver_next_protected
+Local Opaque tcp_disconnect_hook tcp_suppress tcp_init_stack tcp_init_reraises misc_disconnect_after_connection receiver_next_protected tcp_wait_clauses udp_wait_clauses
              listener_connect tls_wrap udp_aexit stream_close_pushed_first udp_done_in_finally udp_done_marks_first.
 
 (* ---- TCP client task ---- *)
@@ -164,8 +164,8 @@ Lemma tcp_client_task_main_sim tls p e1 e1' e2 e2' :
 Proof.
   intros H1 H2. unfold tcp_client_task_main.
   set (run_disc := if misc_disconnect_after_connection then pos_connected p else true).
-  set (raised0 := match p with PDisconnect => None | _ => Some e1 end).
-  set (raised0' := match p with PDisconnect => None | _ => Some e1' end).
+  set (raised0 := match p with PDisconnect | PConnGenPeerLeft => None | _ => Some e1 end).
+  set (raised0' := match p with PDisconnect | PConnGenPeerLeft => None | _ => Some e1' end).
   set (disc := match p with PDisconnect => Some e1 | _ => e2 end).
   set (disc' := match p with PDisconnect => Some e1' | _ => e2' end).
   assert (R0 : osim raised0 raised0') by (unfold raised0, raised0'; destruct p; constructor; auto).
@@ -206,7 +206,8 @@ Lemma tcp_client_task_sim tls p e1 e1' e2 e2' :
 Proof.
   intros H1 H2. unfold tcp_client_task.
   destruct p; try (apply tcp_client_task_main_sim; assumption);
-    destruct receiver_next_protected;
+    try (destruct (delay_error d) as [k|]; [destruct (leaf_matches tcp_wait_clauses k)|]);
+    try destruct receiver_next_protected;
     solve [apply tcp_client_task_main_sim; assumption | simpl; repeat split; apply osim_refl].
 Qed.
 
@@ -326,6 +327,18 @@ Proof.
     + now apply mres_apply_sim.
 Qed.
 
+Lemma udp_main_sim p e e' : sim e e' ->
+  osim (u_raises (udp_client_task_main p e)) (u_raises (udp_client_task_main p e')) /\
+  (u_raises (udp_client_task_main p e') = None ->
+   u_state (udp_client_task_main p e) = u_state (udp_client_task_main p e') /\
+   u_fresh (udp_client_task_main p e) = u_fresh (udp_client_task_main p e')).
+Proof.
+  intros H. unfold udp_client_task_main.
+  destruct (match_run_sim udp_aexit _ _ H) as [M1 M2].
+  destruct (match_run udp_aexit e) as [r lg]. destruct (match_run udp_aexit e') as [r' lg'].
+  simpl in *. split; auto. intros ->. apply osim_none_l in M1. subst r. auto.
+Qed.
+
 Theorem udp_fresh_general :
   forall p e, exc_is_exception e = true ->
     u_raises (udp_client_task p e) = None /\ u_state (udp_client_task p e) = CNone /\ u_fresh (udp_client_task p e) = true.
@@ -334,18 +347,25 @@ Proof.
   destruct (udp_never_raises_canon p (canon_exc e) (canon_in_domain e)) as (A&B&C).
   { now rewrite <- (exc_is_exception_sim _ _ (canon_sim e)). }
   unfold udp_client_task in *.
-  destruct (match_run_sim udp_aexit _ _ (canon_sim e)) as [M1 M2].
-  destruct (match_run udp_aexit e) as [r lg]. destruct (match_run udp_aexit (canon_exc e)) as [r' lg'].
-  simpl in *. assert (r' = None) as -> by auto. apply osim_none_l in M1. subst r. auto.
+  assert (K : forall q, u_raises (udp_client_task_main q (canon_exc e)) = None ->
+                        u_state (udp_client_task_main q (canon_exc e)) = CNone ->
+                        u_fresh (udp_client_task_main q (canon_exc e)) = true ->
+              u_raises (udp_client_task_main q e) = None /\ u_state (udp_client_task_main q e) = CNone /\
+              u_fresh (udp_client_task_main q e) = true).
+  { intros q A' B' C'. destruct (udp_main_sim q _ _ (canon_sim e)) as [S1 S2]. destruct (S2 A') as [S3 S4].
+    rewrite A' in S1. apply osim_none_l in S1. rewrite S1, S3, S4. auto. }
+  destruct p; try (apply K; assumption).
+  destruct (delay_error d) as [k|]; [destruct (leaf_matches udp_wait_clauses k)|];
+    solve [apply K; assumption | simpl in *; discriminate].
 Qed.
 
 (* faults raised by an exit callback registered after the suppressor *)
 Theorem exit_callback_contained_general :
   forall e, exc_is_exception e = true ->
-    o_raises (tcp_exit_callback_fault true SAclosing e) = None /\
-    o_raises (tcp_exit_callback_fault false SLinger e) = None /\
-    o_raises (tcp_exit_callback_fault true SOnDisconnect e) = None /\
-    o_raises (tcp_exit_callback_fault false SOnDisconnect e) = None.
+    o_raises (tcp_exit_callback_fault FTlsCompat SAclosing e) = None /\
+    o_raises (tcp_exit_callback_fault FPlain SLinger e) = None /\
+    o_raises (tcp_exit_callback_fault FTlsCompat SOnDisconnect e) = None /\
+    o_raises (tcp_exit_callback_fault FPlain SOnDisconnect e) = None.
 Proof.
   intros e X.
   pose proof exit_cb_table as T. rewrite forallb_forall in T. specialize (T _ (canon_in_domain e)).
@@ -355,8 +375,8 @@ Proof.
   unfold tcp_exit_callback_fault in *. simpl in *.
   pose proof (layers_run_sim tcp_suppress _ _ (canon_sim e)) as [F1 _ _].
   repeat split.
-  - destruct (pushed_before SSuppress SAclosing (tcp_init_stack true)); simpl in *; [apply (osim_none_iff _ _ F1); auto | discriminate].
-  - destruct (pushed_before SSuppress SLinger (tcp_init_stack false)); simpl in *; [apply (osim_none_iff _ _ F1); auto | discriminate].
-  - destruct (pushed_before SSuppress SOnDisconnect (tcp_init_stack true)); simpl in *; [apply (osim_none_iff _ _ F1); auto | discriminate].
-  - destruct (pushed_before SSuppress SOnDisconnect (tcp_init_stack false)); simpl in *; [apply (osim_none_iff _ _ F1); auto | discriminate].
+  - destruct (pushed_before SSuppress SAclosing (tcp_init_stack FTlsCompat)); simpl in *; [apply (osim_none_iff _ _ F1); auto | discriminate].
+  - destruct (pushed_before SSuppress SLinger (tcp_init_stack FPlain)); simpl in *; [apply (osim_none_iff _ _ F1); auto | discriminate].
+  - destruct (pushed_before SSuppress SOnDisconnect (tcp_init_stack FTlsCompat)); simpl in *; [apply (osim_none_iff _ _ F1); auto | discriminate].
+  - destruct (pushed_before SSuppress SOnDisconnect (tcp_init_stack FPlain)); simpl in *; [apply (osim_none_iff _ _ F1); auto | discriminate].
 Qed.
